@@ -1,6 +1,6 @@
 """C06 The parser builds the tree the grammar prescribes, and printing it round-trips.
 
-Proof : coq/Parse/{Tokens,Ast,Model,Grammar,Print,Proofs}.v + Properties/C06.v
+Proof : coq/Parse/{Tokens,Ast,Model,Grammar,Print,Proofs,ProofsFull,PrintProofs}.v + Properties/C06.v
         (Model = parser_rd.rs: Pratt loop with the binding powers re-extracted from the source on every run;
          Grammar = the stratified reference grammar; Print = ast.rs Display).
 Tie   : the `parse` harness bin parses every generated text with the real `AstModule::parse`, dumps the real
@@ -635,27 +635,45 @@ def replay(ctx, rep):
 
 META = {
     "category": "proof",
-    "level_text": "Partial. Proved in Coq (Properties/C06.v, closed under the global context): for every binding-power table satisfying the "
-                  "boolean predicate table_ok - and the table re-extracted from parser_rd.rs on every run satisfies it by computation - "
-                  "the Pratt loop of the parser model (infix_binding_power, prefix `not`, two-token `not in`, chained-comparison "
-                  "rejection, with both copies of the loop) entered at any binding power of precedence level i returns exactly what the "
-                  "level-i nonterminal of the stratified reference grammar returns (tree, remaining input, rejection), for every operand "
-                  "parser that consumes input; instantiated at every entry point (parse_test, parse_or_test, parse_argument's "
-                  "continue_infix, the operand of `not`, parse_bitor_expr, every right operand). NOT proved: the lifting of this operator-"
-                  "layer theorem through the bracket/argument-list grammar to whole expressions (incl. parse_argument's identifier "
-                  "re-entry = parse_test), and the printer round trip; both are checked on every run by the tie instead: the extracted "
-                  "model and the extracted reference grammar are run on the real lexer's token stream of every generated text and "
-                  "compared with the real parser's tree / rejection, the model printer with Display's tokens, and the real parser is "
-                  "checked for parse(Display(t)) = t and Display fixed point; CPython's ast gives an independent third opinion on the "
-                  "shared subset. Statements (def/if/for/return/load, indentation) are covered by the CPython comparison and the round "
-                  "trip only. One deviation from the specification's grammar is recorded as a known finding (bare tuple expression "
-                  "statement rejected; Coq witness C06_bare_tuple_statement_refuted).",
+    "level_text": "Full for the expression grammar, at the level of the Coq model of parser_rd.rs. Proved in Coq (Properties/C06.v, closed under "
+                  "the global context, no axioms): (1) C06_pratt_eq_grammar: for every binding-power table satisfying the boolean predicate "
+                  "table_ok - and the table re-extracted from parser_rd.rs on every run satisfies it by computation - the parser model "
+                  "(Pratt loop with infix_binding_power, prefix `not`, two-token `not in`, chained-comparison rejection, both copies of the "
+                  "loop, parse_bitor_expr, parse_argument's identifier look-ahead, all bracket/suffix/argument-list/lambda/comprehension "
+                  "code, check_assign/check_call/lambda-parameter validation, the one-line expression / assignment statement) returns, "
+                  "for EVERY token list and EVERY fuel, exactly what the stratified reference grammar returns: same tree, same rejection, "
+                  "same out-of-fuel. It is lifted from the operator-layer theorem (C06_pratt_binary_partial, kept) by congruence lemmas "
+                  "for every function of the shared grammar (proved once for an arbitrary bind-compatible relation; no functional "
+                  "extensionality) and by C06_argument_reentry_eq (continue_primary ; continue_infix(c_arg) ; continue_ternary after a "
+                  "consumed identifier = parse_test on the un-consumed stream). C06_parse_fuel_mono: any answer other than out-of-fuel is "
+                  "the answer at every larger fuel, so the equality reads 'for all sufficiently large fuel' as well. "
+                  "(2) C06_print_parse_roundtrip: for every expression e with printable e (all 21 constructors: names, literals, tuples, "
+                  "list/dict displays, dot, calls with positional/named/*/** arguments, index, two-index, slices, lambda with every "
+                  "parameter kind, not, unary + - ~, all 21 binary operators, conditional, list and dict comprehensions), parsing the "
+                  "tokens of the Display model (every operator application parenthesised, unary receivers and int-before-dot "
+                  "parenthesised) with fuel >= size gives e back; `printable` only asks what the parser guarantees of its own output "
+                  "(check_args, check_params, comprehension starts with `for`, loop targets assignable and normalised). Corollaries "
+                  "C06_print_fixpoint (printed text is a fixed point of parse-then-print), C06_print_injective (different printable trees "
+                  "print differently), C06_print_parse_roundtrip_in_context (inside any bracket/comma/colon/else/for context), "
+                  "C06_print_parse_roundtrip_stmt (also `target = value`), C06_print_parse_roundtrip_extracted (at the extracted tables with "
+                  "the fuel the tie uses: size <= number of printed tokens). "
+                  "Still only TIED (tested, not proved): that the Coq model is parser_rd.rs and that Print.v is ast.rs Display - the "
+                  "extracted model and reference grammar are run on the real lexer's token stream of every generated text and compared with "
+                  "the real parser's tree / rejection, the model printer with Display's tokens, and the real parser is checked for "
+                  "parse(Display(t)) = t and Display fixed point; CPython's ast gives an independent third opinion on the shared subset. "
+                  "NOT proved and not modelled in Coq: statements other than the one-line expression / assignment statement "
+                  "(def/if/for/return/load, indentation; covered by the CPython comparison and the real round trip only), f-string desugaring, minimal-parenthesis printing (min_paren_roundtrip of "
+                  "DESIGN), and that every tree the parser returns is `printable` (checked per case by the tie). One deviation from the "
+                  "specification's grammar is recorded as a known finding (bare tuple expression statement rejected; Coq witness "
+                  "C06_bare_tuple_statement_refuted; this is why the full statement is against Grammar.parse_strict).",
     "level_note": "Trusted: Coq kernel; extraction (ExtrOcamlBasic only) + ocaml/parse_driver.ml; tools/extract.py + tools/extract_items/parser.py "
                   "(regexes over parser_rd.rs); harness bin parse (own AST walker); the real lexer (shared by model and implementation; C05's "
                   "subject); CPython 3.11 ast as validation of the reference grammar. The model makes explicit that parse_unary consumes "
                   "a token when it succeeds (guard) and uses explicit fuel for nesting; neither fires on generated inputs (OOF/guard "
                   "results are reported as failures). The tie is differential testing: a code change outside the generators' reach can escape.",
-    "technique": "Coq proof of Pratt = stratified grammar over a table_ok-checked, source-extracted binding-power table; "
+    "technique": "Coq proof of parser model = stratified grammar on all token lists (operator layer by level induction, lifted by relational "
+                 "parametricity of the shared grammar code + argument re-entry lemma) over a table_ok-checked, source-extracted "
+                 "binding-power table; Coq proof of the Display round trip by size induction; "
                  "extracted model vs implementation vs CPython on exhaustive operator pairs/triples x contexts",
     "design_ref": "DESIGN.md section 4 C06",
 }
